@@ -389,3 +389,5 @@ func TestIdentitiesPerModel(t *testing.T) {
 		t.Run(name, func(t *testing.T) { pbt.Run(t, genFor(name), check) })
 	}
 }
+
+func FuzzIdentities(f *testing.F) { pbt.Fuzz(f, genFor(""), check) }
